@@ -168,6 +168,21 @@ def check(denses, commons, N, acc, base, only_call=None):
                         break
             except Exception as e:  # noqa
                 acc.violation("ccube:%s:same-cube-after-change:raised" % agg, case, repr(e))
+        if call in pipeline_calls and "ccube" in full and any(d.ndim >= 2 for d in denses):
+            # (iii) identity vs equality: the SAME multi-axis index object standing for two dimensions == that index and a copy of it
+            try:
+                a = next(M.build_index(d, c) for d, c in zip(denses, commons) if d.ndim >= 2)
+                sh2 = (E + 1, E + 1)
+                f2, _, _, _, w2, _, _ = c03.realise(N, ws, fs)
+                r_same = Q.normalise(Q.call_cube(ccube([a, a], interacting_shape=sh2), agg, f2, w2, ignore, Q.NaN), Q.NaN)
+                f2, _, _, _, w2, _, _ = c03.realise(N, ws, fs)
+                r_copy = Q.normalise(Q.call_cube(ccube([a, a.copy()], interacting_shape=sh2), agg, f2, w2, ignore, Q.NaN), Q.NaN)
+                acc.count("pipeline_evals")
+                msg = eq(r_same, r_copy, grand)
+                if msg:
+                    acc.violation("ccube:%s:same-object-twice" % agg, case, "ccube([A, A]) vs ccube([A, A.copy()]): %s" % msg)
+            except Exception as e:  # noqa
+                acc.violation("ccube:%s:same-object-twice:raised" % agg, case, repr(e))
         if call in pipeline_calls and "xcube" in full and N:
             # (ii) the array cube over the narrow unsigned arrays an index converts to: evaluated twice, the arrays must stay what they were
             # and both evaluations (and a second cube over the same arrays) must agree
